@@ -10,6 +10,7 @@
    [patch_result patches up rt]       : the same for a patch overlay (new upstream with the patch for
        rt applied); [patch_materialize] ties it to the composition function. *)
 From AP Require Import Base.Str Base.StrFacts Model.Rebase Proofs.RebaseP.
+From AP Require Gen.Tables.
 Open Scope N_scope.
 
 (* ------------------------------------------------------------------------------------------ *)
@@ -161,6 +162,18 @@ Theorem C14_refused_without_yes : forall merge3 git_apply diff o w ov,
   dry_run o = false ->
   overlay_rebase_cmd merge3 git_apply diff true false o w ov = (ov, CErr code_confirm_required).
 Proof. exact cmd_refused. Qed.
+
+(* table theorem (finite: the 8 codes the model can answer with): each is an "E_*" literal of the
+   current source and a registered code of docs/reference/error-codes.md (Gen/Tables.v is regenerated
+   from /repo on every run) *)
+Definition model_codes : list str :=
+  [code_not_found; code_baseline_missing; code_baseline_unsupported; code_config_invalid; code_unexpected;
+   code_rebase_conflict; code_confirm_required; code_patch_apply_failed].
+
+Theorem C14_codes_in_source :
+  forallb (fun c => mem_str c Gen.Tables.source_error_codes && mem_str c Gen.Tables.registry_error_codes) model_codes = true.
+Proof. vm_compute. reflexivity. Qed.
+Print Assumptions C14_codes_in_source.
 
 (* ------------------------------------------------------------------------------------------ *)
 (* patch overlays *)
